@@ -13,6 +13,8 @@ OBLIGATIONS = [
     Ob(name='C10.O1.splice', harness=SEQ, entry='h_splice', unwind=1, min_covers=3, functions=F, timeout=600,
        desc='splice: dest = dest ++ src in order, source empty and reusable, return code, both chains intact (witness)'),
     Ob(name='C10.O1.init', harness=SEQ, entry='h_init', unwind=1, cover=False, functions=F, desc='init gives an empty queue'),
+    Ob(name='C10.O1.busy_wait', harness=SEQ, entry='h_busy_wait', unwind=1, min_covers=3, functions=('___cds_wfcq_busy_wait',),
+       desc='___cds_wfcq_busy_wait for every attempt counter: returns 1 (would block) iff the caller is non-blocking; a blocking caller spins WFCQ_ADAPT_ATTEMPTS times, sleeps, restarts its count and is never told to give up'),
     Ob(name='C10.O2.wfq_enqueue', harness='C10/wfq_seq.c', entry='h_wfq_enqueue', unwind=1, min_covers=2, functions=('_cds_wfq_enqueue',),
        desc='legacy cds_wfq enqueue on a quiescent queue of any length with the dummy anywhere: appended at the tail; tail exchange (SEQ_CST) precedes the release store of the link; wait-free'),
     Ob(name='C10.O2.wfq_dequeue', harness='C10/wfq_seq.c', entry='h_wfq_dequeue', unwind=2, min_covers=4, functions=('___cds_wfq_dequeue_blocking', '___cds_wfq_node_sync_next'),
